@@ -535,6 +535,33 @@ def with_lead(rng, func, p=0.5):
     return ret, name + "~" + ",".join(map(str, lead)), pdesc, bdesc
 
 
+def with_tail(rng, func, p=0.5, addrspace_ok=True):
+    """clauses behind the parameter list: unnamed_addr / local_unnamed_addr, addrspace(N), attribute keywords, section, partition, align, gc"""
+    ret, name, pdesc, bdesc = func
+    if name.count("~") >= 2 or rng.random() >= p:
+        return func
+    cl = []
+    if rng.random() < 0.3:
+        cl.append("u%d" % rng.randrange(2))
+    if addrspace_ok and rng.random() < 0.25:
+        cl.append("a%d" % rng.choice([1, 3, 5, 16777215, 4294967296]))
+    if rng.random() < 0.5:
+        cl.append("k" + ",".join(str(rng.randrange(56)) for _ in range(rng.choice([1, 1, 2, 3, 5]))))
+    if rng.random() < 0.3:
+        cl.append("s" + rng.choice([b".text", b"a b", b'q"uote', b"\\", b"\x01\xff", b"__TEXT,__text"]).hex())
+    if rng.random() < 0.15:
+        cl.append("p" + rng.choice([b"part1", b"p q"]).hex())
+    if rng.random() < 0.3:
+        cl.append("l%d" % rng.choice([1, 2, 8, 4096, 7, 2**63, 2**64 - 1]))
+    if rng.random() < 0.2:
+        cl.append("g" + rng.choice([b"shadow-stack", b"statepoint-example", b"a\"b"]).hex())
+    if not cl:
+        return func
+    if "~" not in name:
+        name += "~"
+    return ret, name + "~" + ";".join(cl), pdesc, bdesc
+
+
 MD_NAMES = [b"dbg", b"tbaa", b"prof", b"llvm.loop", b"x", b"1a", b"7", b"a b", b"\\", b"!", b"range", b"q\"uote", b"\xff"]
 
 
